@@ -18,14 +18,16 @@ CLAIMS = {
               "retrace each other in reverse, agree on sub-paths and never pass through single-channel Luma; every TypeId shortcut must "
               "compare the type arguments that justify its arm (a reinterpret arm needs the whole standard equal); the algebraic hops "
               "(Xyz<->Yxy, Xyz<->Lab, Hsv<->Hwb, Okhsv<->Okhwb, Hsv->Hsl->Hsv) composed with their reverse normalise to the identity for all "
-              "inputs; hard-coded matrix pairs are mutual inverses; attaching alpha splits it off, converts only the colour and passes "
-              "alpha through. Does not decide the floating-point round-trip error, trigonometric hops or the Ok*/HSLuv searches."),
+              "inputs; the four rectangular/polar pairs invert each other under the trigonometric axioms (cos²+sin²=1, atan2 of a scaled (cos,sin)); "
+              "where a direct hand-written edge lies beside a two-hop hand-written path (Luma/Xyz/Yxy) both give the same value; every transfer "
+              "function pair equals the published, mutually inverse pair on the whole real line; hard-coded matrix pairs are mutual inverses; attaching alpha splits it off, converts only the colour and passes "
+              "alpha through. Does not decide the floating-point round-trip error or the Ok*/HSLuv searches."),
         design_ref="DESIGN.md §3 C01",
     ),
     "C02": dict(
         technique="symbolic normal form of resolved HIR vs published definitions; exact-arithmetic checks of literal tables",
         category="other",
-        text=("For all inputs over the reals: each directly implemented conversion anchored in the property (xyY, L*a*b*, L*u*v*, the polar "
+        text=("For all inputs over the reals: each directly implemented conversion anchored in the property (xyY, L*a*b*, L*u*v*, the four Luma edges (which transfer function, which component, white-point chromaticity), the polar "
               "forms, hexcone HSV/HSL/HWB and their Ok twins, the generic transfer functions of every RGB standard) is normalised from the "
               "type-checked HIR into a case tree of exact rational functions over uninterpreted transcendentals and must equal the published "
               "definition, piece by piece including which piece owns each threshold; RGB<->XYZ matrices must equal the matrix derived from the "
@@ -35,14 +37,16 @@ CLAIMS = {
         design_ref="DESIGN.md §3 C02",
     ),
     "C03": dict(
-        technique="symbolic evaluation of bounds/clamp bodies with min/max as case splits; exact interval reasoning discharges the contract laws",
+        technique="symbolic evaluation of bounds/clamp bodies with min/max as case splits; exact interval reasoning discharges the contract laws; compiler-decided trait-applicability witnesses",
         category="proof",
         text=("For every colour type (27 today) and all component values at once: the macro-expanded bodies of is_within_bounds, clamp and "
               "clamp_assign are evaluated symbolically and the contract itself is discharged on them by exact interval reasoning — "
               "is_within_bounds(clamp(c)) is true for every c, clamp(c) = c whenever is_within_bounds(c), clamp is idempotent, clamp_assign "
               "leaves *self equal to clamp(self), and the thresholds are the type's public min_*/max_* accessors; the coupled HWB forms are "
               "compared with the documented renormalisation; FromColor must be exactly clamp∘from_color_unclamped, TryFromColor must test the "
-              "unclamped value and return that same value in Ok or inside OutOfBounds; Alpha clamps colour and alpha separately. "
+              "unclamped value and return that same value in Ok or inside OutOfBounds; Alpha clamps colour and alpha separately; a generated witness "
+              "crate lets rustc's trait solver decide that the contract traits actually apply to X, Alpha<X, T>, [X] and [Alpha<X, T>] for all 26 "
+              "types and f32/f64 (an impl whose where-clause no component type satisfies makes is_within_bounds fall through Deref and ignore alpha). "
               "Does not decide rounding of the HWB division (w/s + b/s may exceed 1 by an ulp)."),
         design_ref="DESIGN.md §3 C03",
     ),
@@ -53,7 +57,8 @@ CLAIMS = {
               "premultiply/unpremultiply impl is normalised from the type-checked HIR into a case tree of exact rational functions and "
               "must equal the W3C Compositing and Blending formula; commutativity, opaque reduction, transparent/opaque `over` and "
               "unpremultiply∘premultiply are discharged on the code's own normal forms; all 33 Blend and 12 Compose dispatchers must pass "
-              "the function named after the method with source and backdrop in order. Decides the formula clauses over the reals; "
+              "the function named after the method with source and backdrop in order; the three constructors of BlendInput fill `color` with the "
+              "straight colour, `color_pre` with the premultiplied one and `alpha` (terms over the uninterpreted Premultiply methods). Decides the formula clauses over the reals; "
               "does not decide rounding or [0,1] containment where no final clamp provides it."),
         design_ref="DESIGN.md §3 C08",
     ),
@@ -107,8 +112,8 @@ CLAIMS["C06"] = dict(
           "cast), applied to S = max(min(x·MAX, MAX), 0) in exactly the NaN-safe nesting (NaN, +inf, x>=1 -> MAX; x<=0, -inf -> 0; no negative "
           "value reaches to_bits); uint->float = x/MAX (0 -> 0, MAX -> 1); widening = (x<<BITS)|x with MAX_t = MAX_s·(2^BITS+1), longer steps "
           "through the next width; narrowing = cast(clamp(round(x·MAX_t/MAX_s))) with MAX_s/MAX_t integral, hence narrow(widen(x)) = x; "
-          "max_intensity is 1 / MAX; all 34 into_format/from_format methods map each component of the same field through "
-          "FromStimulus/FromAngle. Does not decide nearest-integer claims that depend on floating-point rounding of x·MAX."),
+          "max_intensity is 1 / MAX; all 34 into_format/from_format methods map each component of the same field through exactly one "
+          "FromStimulus/FromAngle step, and the 16 `From` impls between formats of one colour type convert in one hop (no intermediate format, which would round twice). Does not decide nearest-integer claims that depend on floating-point rounding of x·MAX."),
     design_ref="DESIGN.md §3 C06",
 )
 
@@ -139,7 +144,9 @@ CLAIMS["C05"] = dict(
           "buckets and ends at 0/MAX, decode-table -> encoder reproduces every 8-/16-bit code, decode tables run 0..1 strictly increasing, equal "
           "the standard's curve at i/MAX within 5e-7 and the f32 table is the rounded f64 table; f64 entry points use the same fast path. "
           "The generic float curves equal the standards' definitions with a knee step < 1e-6; Rgb/Luma(/Alpha) into_linear, from_linear, "
-          "into_encoding, from_encoding map each channel of the same field through the transfer function. Does not decide the < 0.6-code "
+          "into_encoding, from_encoding map each channel of the same field through the transfer function; for every standard the RgbStandard and "
+          "LumaStandard impls name the same transfer function and white point (normalised associated types) and the seven named standards "
+          "use the curve their specification defines. Does not decide the < 0.6-code "
           "error of the fitted tables over all 2^32 inputs."),
     design_ref="DESIGN.md §3 C05",
 )
@@ -151,7 +158,9 @@ CLAIMS["C04"] = dict(
           "a colour and its Array/Uint (or components) is dominated by the size_of equality of exactly those two types and, unless it is a "
           "by-value transmute_copy, the align_of equality; len/capacity arguments of from_raw_parts / Vec::from_raw_parts are the source's "
           "len()/capacity() scaled by ×LENGTH, ÷LENGTH (dominated by the `% LENGTH == 0` checks, length before capacity) or 1 as the element "
-          "types dictate; error paths hand back the unchanged input. No cast function or in-place map reaches an allocating, reallocating or "
+          "types dictate; array-to-array casts with differing counts are dominated by the exact count relation (N = M x LENGTH, and `N % LENGTH == 0` "
+          "before `N / LENGTH == M`, which alone rounds down); error paths hand back the unchanged input. Every hand-written `unsafe impl ArrayCast` (Alpha, "
+          "PreAlpha, Packed) ties each non-phantom field to the array's item type, directly or through where-clause equalities. No cast function or in-place map reaches an allocating, reallocating or "
           "copying API (Vec::new, into_boxed_slice, into_vec, collect, clone ...), so address, length and capacity are those of the input; "
           "map_*_in_place read and write the same place once inside ManuallyDrop. A generated witness crate lets rustc decide ~930 const "
           "assertions: size, alignment and offset_of every field in declaration order (alpha last) for all 26 ArrayCast structs x 5 "
@@ -168,8 +177,9 @@ CLAIMS["C13"] = dict(
           "(then_into_*: C <- T; restore/drop: U <- T; kind changes convert nothing); the guard made in drop and the per-element guards of the "
           "slice impls are the direct argument of mem::forget; the single-value impl clones, reinterprets via from_array_mut(into_array_mut(_)) "
           "and stores clone.into_color() (resp. into_color_unclamped()) and nothing else; the slice impl converts each element then casts the "
-          "slice once; the two modules have equal callee sequences modulo the clamped<->unclamped swap; Vec/Box impls map in place with the "
-          "conversion of the same trait, and the in-place maps read/write the same place once under ManuallyDrop without any allocating API "
+          "slice once; no guard method has an early exit or takes `current` inside a branch arm (the restore happens on every path, also while "
+          "unwinding); the two modules have equal callee sequences modulo the clamped<->unclamped swap; Vec/Box impls are, on every path, the "
+          "in-place map of the argument itself with the conversion of the same trait (no early return, no fresh container for the empty case), and the in-place maps read/write the same place once under ManuallyDrop without any allocating API "
           "(same address, length, capacity). Borrow exclusivity while a guard lives is enforced by the type signature (&'a mut). "
           "Does not decide value equality beyond 'the stored value is the out-of-place conversion of the original'."),
     design_ref="DESIGN.md §3 C13",
@@ -202,7 +212,7 @@ CLAIMS["C14"] = dict(
           "invert uses matrix_inverse, diagonal_matrix = diag(dst/src per cone), adaptation_matrix = to-LMS(input) ▸ diag ▸ from-LMS(output) "
           "with one method, equal white points return the input - hence the source white maps onto the destination white. For xyz = k·white "
           "(all k>0, all white points) Lab gives a=b=0, Luv u=v=0, L*=100 at k=1, zero (a,b) gives zero chroma, Luma->Rgb fills three equal "
-          "channels; Oklab of the D65 literal is (1,0,0) within 5e-4 (computed residual 3.7e-5). Not decided: CAM16 J=100 for the adopted "
+          "channels, a gray Luma lands on the white point's chromaticity in Yxy and on a multiple of the white point in Xyz; Oklab of the D65 literal is (1,0,0) within 5e-4 (computed residual 3.7e-5). Not decided: CAM16 J=100 for the adopted "
           "white, floating-point residuals of round trips."),
     design_ref="DESIGN.md §3 C14",
 )
